@@ -102,12 +102,17 @@ def ensure_facts(features="", repo=None):
         if os.path.exists(os.path.join(d, "DONE")):
             return d
         # prune old cache entries (keep the 6 most recent)
-        ents = sorted(
-            (e for e in glob.glob(os.path.join(CACHE, "*")) if os.path.isdir(e)),
-            key=os.path.getmtime,
-        )
+        def _mt(e):
+            try:
+                return os.path.getmtime(e)
+            except OSError:
+                return 0.0
+        ents = sorted((e for e in glob.glob(os.path.join(CACHE, "*")) if os.path.isdir(e)), key=_mt)
+        now = time.time()
         for e in ents[:-24]:
-            shutil.rmtree(e, ignore_errors=True)
+            # never prune an entry another process may be reading (entries younger than 30 minutes stay)
+            if now - _mt(e) > 1800:
+                shutil.rmtree(e, ignore_errors=True)
         if os.path.exists(d):
             shutil.rmtree(d)
         os.makedirs(d)
